@@ -289,6 +289,42 @@ def r09_6(ctx):
            "the in-place decoder advances past the look-ahead on a path that then emits the lossy replacement")
 
 
+def r09_8(ctx):
+    """the second escape of a surrogate pair is decoded only after BOTH of its prefix bytes were found to be
+    `\\` and `u`: the hex decoding of the look-ahead must be unreachable from the mismatch edge of either test"""
+    prog = ctx.prog()
+    for name in ("Parser::parse_escaped_utf8", "unicode::handle_unicode_codepoint_mut"):
+        f = prog.find(name)
+        hexc = [(b, t) for b, t in f.calls() if callee_is(t, "hex_to_u32_nocheck")]
+        if len(hexc) < 2:
+            ctx.ob("R09.8", f"{short(f.id)}:second-escape", False, f.loc(), "expected two hex decodings (high and low surrogate) (fail closed)")
+            continue
+        first = [h for h in hexc if all(f.dominates(h[0], o[0]) for o in hexc)]
+        second = [h for h in hexc if h not in first]
+        tests = {}
+        for b, i, s_ in f.assigns():
+            rv = s_["rv"]
+            if rv["k"] == "binop" and rv["op"] in ("Eq", "Ne"):
+                for c in (92, 117):
+                    if (op_int(rv["a"]) == c and rv["a"].get("ty") == "u8") or (op_int(rv["b"]) == c and rv["b"].get("ty") == "u8"):
+                        e = bool_switch_edges(f, s_["lhs"][0])
+                        if e:
+                            match_t, mismatch_t = (e[0], e[1]) if rv["op"] == "Eq" else (e[1], e[0])
+                            tests.setdefault(c, []).append((b, match_t, mismatch_t))
+        ok = 92 in tests and 117 in tests
+        bad = []
+        for c, lst in tests.items():
+            for b, match_t, mismatch_t in lst:
+                for hb, ht in second:
+                    if f.dominates(b, hb) or hb in f.reachable_from(b):
+                        if hb in f.reachable_from(mismatch_t, avoid={match_t}) and hb in f.reachable_from(mismatch_t):
+                            # reachable from the mismatch edge without going through the match edge of the same test
+                            bad.append((chr(c), ht["ln"]))
+        ctx.ob("R09.8", f"{short(f.id)}:second-escape-prefix", ok and not bad, f.loc(),
+               "the low surrogate's digits are decoded only on the path where both prefix bytes matched `\\u`" if ok and not bad else
+               f"the look-ahead is decoded as a \\uXXXX escape although a prefix byte did not match ({bad}): e.g. \\ud83d\\xde00 is accepted")
+
+
 def r09_7(ctx):
     """shape of the surrogate-pair assembly (shared with C03: R03.5)"""
     from .c03 import r03_5
@@ -298,4 +334,4 @@ def r09_7(ctx):
             o["rule"] = "R09.7"
 
 
-RULES = [("R09.1", r09_1), ("R09.2", r09_2), ("R09.3", r09_3), ("R09.4", r09_4), ("R09.5", r09_5), ("R09.6", r09_6), ("R09.7", r09_7)]
+RULES = [("R09.1", r09_1), ("R09.2", r09_2), ("R09.3", r09_3), ("R09.4", r09_4), ("R09.5", r09_5), ("R09.6", r09_6), ("R09.7", r09_7), ("R09.8", r09_8)]
